@@ -27,6 +27,7 @@ type record struct {
 	Towgs            []float64
 	Unit             string // metre, foot, us-ft
 	Spelling         int    // WKT parameter-name variant
+	UnitFirst        bool   // WKT clause order: UNIT directly behind GEOGCS instead of last
 }
 
 var unitToMeter = map[string]float64{"metre": 1, "foot": 0.3048, "us-ft": 1200.0 / 3937.0}
@@ -111,6 +112,9 @@ func (r record) wkt() string {
 		ps = append(ps, par("latitude_of_origin", r.Lat0), par("central_meridian", r.Lon0), par("scale_factor", r.K0))
 	}
 	ps = append(ps, par("false_easting", r.X0m/u), par("false_northing", r.Y0m/u))
+	if r.UnitFirst {
+		return fmt.Sprintf(`PROJCS["Neutral projected",%s,UNIT["%s",%s],PROJECTION["%s"],%s]`, r.geogWKT(), uname, g(u), name, strings.Join(ps, ","))
+	}
 	return fmt.Sprintf(`PROJCS["Neutral projected",%s,PROJECTION["%s"],%s,UNIT["%s",%s]]`, r.geogWKT(), name, strings.Join(ps, ","), uname, g(u))
 }
 
@@ -201,14 +205,14 @@ func main() {
 		return
 	}
 	rep := report.New("C20", tier, "exploration")
-	rep.Rule = "E1 lattice: abstract CRS records (Mercator_1SP, Lambert_Conformal_Conic_2SP, Albers, Equidistant_Conic in both parameter spellings, Transverse_Mercator, plain GEOGCS) x parameter sets (northern / southern cones, 1SP) x 4 (6) spheroids by (a, 1/f) x TOWGS84 {none, 3 terms, 7 terms, 7 terms with zero translations} x linear unit {metre, foot, US survey foot}, each rendered by two independent renderers as PROJ.4 and as OGC WKT 1 with neutral names; transformers from the own geographic base (and from WGS84 long/lat when a TOWGS84 is stated) must agree within 1 micrometre at 16-20 positions; registered names and aliases against their definitions; every ordered pair of a pool of 34 references differing in one field each: parsing twice gives Equal, NewTransform is nil exactly for Equal references, and a nil transformer is returned only for references that transform identically; a .prj read through (*shp.Decoder).SR equals Parse of its text. Non-trivial = records with a non-metre unit, a TOWGS84 clause or the alternative parameter spelling."
+	rep.Rule = "E1 lattice: abstract CRS records (Mercator_1SP, Lambert_Conformal_Conic_2SP, Albers, Equidistant_Conic in both parameter spellings, Transverse_Mercator, plain GEOGCS) x parameter sets (northern / southern cones, 1SP) x 4 (6) spheroids by (a, 1/f) x TOWGS84 {none, 3 terms, 7 terms, 7 terms with zero translations, 7 terms with zero rotations} x WKT clause order {UNIT last, UNIT first} x linear unit {metre, foot, US survey foot}, each rendered by two independent renderers as PROJ.4 and as OGC WKT 1 with neutral names; transformers from the own geographic base (and from WGS84 long/lat when a TOWGS84 is stated) must agree within 1 micrometre at 16-20 positions; registered names and aliases against their definitions; every ordered pair of a pool of 44 references differing in one field each (incl. WKT texts sharing their names): parsing twice gives Equal, NewTransform is nil exactly for Equal references, and a nil transformer is returned only for references that transform identically; a .prj read through (*shp.Decoder).SR equals Parse of its text. Non-trivial = records with a non-metre unit, a TOWGS84 clause or the alternative parameter spelling."
 	var n, nontrivial int64
 	spheroids := [][2]float64{{6378137, 298.257223563}, {6377397.155, 299.1528128}, {6378206.4, 294.9786982}, {6378388, 297}}
 	spheroids = append(spheroids, [2]float64{6377563.396, 299.3249646}, [2]float64{6378160, 298.25})
 	if tier == "thorough" {
 		spheroids = append(spheroids, [2]float64{6377276.345, 300.8017}, [2]float64{6378249.145, 293.465}, [2]float64{6376523, 308.64})
 	}
-	towgs := [][]float64{nil, {-87, -98, -121}, {577.326, 90.129, 463.919, 5.137, 1.474, 5.297, 2.4232}, {0, 0, 0, 0.35, -0.12, 1.1, 2.5}}
+	towgs := [][]float64{nil, {-87, -98, -121}, {577.326, 90.129, 463.919, 5.137, 1.474, 5.297, 2.4232}, {0, 0, 0, 0.35, -0.12, 1.1, 2.5}, {-87, -98, -121, 0, 0, 0, 5.2}}
 	var recs []record
 	base := []record{
 		{Proj: "merc", Lon0: -75.5, K0: 0.9996, X0m: 500000, Y0m: -2000000},
@@ -234,6 +238,10 @@ func main() {
 					r := b
 					r.A, r.Rf, r.Towgs, r.Unit = sp[0], sp[1], tw, u
 					recs = append(recs, r)
+					if b.Proj != "geog" {
+						r.UnitFirst = true
+						recs = append(recs, r)
+					}
 				}
 			}
 		}
@@ -245,6 +253,9 @@ func main() {
 			nontrivial++
 		}
 		class := fmt.Sprintf("%s|unit=%s|towgs84=%d|spelling=%d", r.Proj, r.Unit, len(r.Towgs), r.Spelling)
+		if r.UnitFirst {
+			class += "|unit-clause-first"
+		}
 		det := func(extra string) map[string]interface{} {
 			return map[string]interface{}{"proj4": p4, "wkt": wk, "observed": extra}
 		}
@@ -390,6 +401,19 @@ func main() {
 		"+proj=utm +zone=32 +datum=WGS84",
 		"+proj=tmerc +lat_0=0 +lon_0=15 +k=0.9996 +x_0=500000 +y_0=0 +datum=WGS84",
 		"+proj=merc +lon_0=0 +k_0=1 +x_0=0 +y_0=0 +datum=WGS84",
+	}
+	// WKT references that share their PROJCS / GEOGCS names and differ in one
+	// parameter each (names carry no meaning)
+	{
+		w0 := record{Proj: "tmerc", Lat0: 0, Lon0: 9, K0: 0.9996, X0m: 500000, Y0m: 0, A: 6378137, Rf: 298.257223563, Unit: "metre"}
+		w1, w2, w3, w4 := w0, w0, w0, w0
+		w1.Lon0 = 15
+		w2.X0m = 500001
+		w3.Unit = "foot"
+		w4.A = 6378388
+		for _, w := range []record{w0, w1, w2, w3, w4} {
+			pool = append(pool, w.wkt(), w.geogWKT())
+		}
 	}
 	geoPts := [][2]float64{{-100, 40}, {-90.5, 31.25}, {14.2, 50.1}}
 	toWGS := func(def string) ([][2]float64, string) {
